@@ -30,7 +30,7 @@ type c11Case struct {
 	Later []c11Conn `json:"later"`
 }
 
-var c11Replies = []string{"resumed-same", "resumed-same", "resumed-same", "resumed-other", "failed", "failed-h", "failed-item-not-found", "failed-unexpected-request",
+var c11Replies = []string{"resumed-same", "resumed-same", "resumed-same", "resumed-other", "resumed-noid", "resumed-emptyid", "failed", "failed-h", "failed-item-not-found", "failed-unexpected-request",
 	"failed-feature-not-implemented", "failed-service-unavailable", "unexpected", "malformed", "close"}
 
 func genC11(t *rapid.T) c11Case {
@@ -338,7 +338,7 @@ var (
 
 var c11 = vh.Define(&vh.Def[c11Case]{
 	Property: "C11", Name: "resume",
-	Rule: "histories of 2-5 connections of one Client (Connect, then Resume after each server-side drop); per later connection: SM advertised or not x reply to <resume/> in {resumed same id, resumed other id, <failed/> empty / with h / with each XEP-0198 condition, unexpected element, malformed, close}; each established session receives 0-4 stanzas and an <r/> and sends 0-3 stanzas; the peer hands out a new id at every enable; model: <resume/> appears only when an id from the last enable is held, with exactly that previd and h = stanzas received on that session; same id => no bind, id/BindJid/counter kept; <failed/> => fresh bind on the same connection; any other reply => the stale id is dropped, never presented again on any later connection, and the old session is not continued; non-trivial = >= 2 connections with a non-success reply, or >= 2 resumptions",
+	Rule: "histories of 2-5 connections of one Client (Connect, then Resume after each server-side drop); per later connection: SM advertised or not x reply to <resume/> in {resumed same id, resumed other id, resumed without / with an empty previd, <failed/> empty / with h / with each XEP-0198 condition, unexpected element, malformed, close}; each established session receives 0-4 stanzas and an <r/> and sends 0-3 stanzas; the peer hands out a new id at every enable; model: <resume/> appears only when an id from the last enable is held, with exactly that previd and h = stanzas received on that session; same id => no bind, id/BindJid/counter kept; <failed/> => fresh bind on the same connection; any other reply => the stale id is dropped, never presented again on any later connection, and the old session is not continued; non-trivial = >= 2 connections with a non-success reply, or >= 2 resumptions",
 	Quick: 300, Thorough: 12000, Journal: true,
 	Gen: genC11, Run: func(c c11Case) vh.Result { queueBefore, checkQueueNext = nil, false; return runC11(c) },
 })
